@@ -48,9 +48,12 @@ def _cases(tier):
             yield {"h": [["J", {"a": vals}]]}
     # dict options
     for dkr, dkf in (([r"a\d"], None), (None, ["m"]), ([r"\w+"], None)):
-        for o1 in ({"m": {"a1": 1, "a2": "x"}}, {"m": {"a1": None}}, {"m": {}}, {"m": {"a1": [1]}}):
-            for o2 in ({"m": {"a1": 1.5}}, {"m": None}, {"m": {"zz": 1}}, {}):
+        for o1 in ({"m": {"a1": 1, "a2": "x"}}, {"m": {"a1": None}}, {"m": {}}, {"m": {"a1": [1]}},
+                   # mappings whose values are all falsy but not null: 0, false, "", [], {}
+                   {"m": {"a1": 0, "a2": 0}}, {"m": {"a1": False}}, {"m": {"a1": ""}}, {"m": {"a1": []}}, {"m": {"a1": 0.0, "a2": None}}):
+            for o2 in ({"m": {"a1": 1.5}}, {"m": None}, {"m": {"zz": 1}}, {}, {"m": {"a2": 0}}, {"m": {"a1": False, "a2": False}}):
                 yield {"h": [["J", o1], ["J", o2]], "dkr": dkr, "dkf": dkf}
+            yield {"h": [["J", o1]], "dkr": dkr, "dkf": dkf}
 
 
 def _samples(case):
